@@ -354,6 +354,13 @@ pub fn run_prop<P: Prop>(p: &P, tier: Tier, seed: u64) -> Outcome {
                                     if debug() && counting {
                                         eprintln!("[{}] shard {} first failure: {} :: {}", P::ID, shard, f.key, truncate_str(&f.msg, 600));
                                     }
+                                    if counting {
+                                        // report at once, with the unshrunk case: a faulty engine may blow up (memory, time)
+                                        // while the case is being shrunk, and the finding must not be lost with the process
+                                        let path = write_replay(P::ID, &case, &f);
+                                        println!("VIOLATION property={} replay={}", P::ID, path);
+                                        println!("  key={} :: {} [unshrunk; a shrunk replay follows when shrinking completes]", f.key, truncate_str(&f.msg, 300));
+                                    }
                                     failed.store(true, Ordering::Relaxed);
                                     let m = f.msg.clone();
                                     *last_fail.lock().unwrap() = Some(f);
